@@ -17,7 +17,7 @@ namespace Circus.Core
     not touch watcher objects: `kKill`, `kWaitpid`, `procStatus`, `isAlive`, `objStop`, `activeProcs` -/
 structure LeafN0 (I : State → Prop) : Prop where
   emit : ∀ o, Pres I (emit o)
-  kill : ∀ pid sig, Pres I (runK fun k => Kernel.kill k pid sig)
+  kill : ∀ pid sig, Pres I (runK fun k => Kernel.killD k pid sig)       -- the daemon's own `os.kill` (may be refused: EPERM)
   waitpid : ∀ pid, Pres I (runK fun k => Kernel.waitpid k pid)
   stateOf : ∀ pid, Pres I (kStateOf pid)
   children : ∀ pid r, Pres I (kChildren pid r)
@@ -113,6 +113,11 @@ theorem sendSignal_narrow (L : LeafN I) (u p sg : Nat) : Pres I (sendSignal u p 
 @[aesop safe apply (rule_sets := [Narrow])]
 theorem sendSignalChild_narrow (L : LeafN I) (p c sg : Nat) : Pres I (sendSignalChild p c sg) := by
   unfold sendSignalChild; narrow
+@[aesop safe apply (rule_sets := [Narrow])]
+theorem signalKids_narrow (L : LeafN I) (u p sg : Nat) (cs : List Nat) : Pres I (signalKids u p sg cs) := by
+  induction cs with
+  | nil => unfold signalKids; narrow
+  | cons c cs ih => unfold signalKids; aesop (add safe apply ih) (rule_sets := [Narrow]) (config := { terminal := true, useDefaultSimpSet := false, useSimpAll := false, maxRuleApplications := 3000 })
 @[aesop safe apply (rule_sets := [Narrow])]
 theorem sendSignalProcess_narrow (L : LeafN I) (u p sg : Nat) (r : Bool) : Pres I (sendSignalProcess u p sg r) := by
   unfold sendSignalProcess; narrow
